@@ -66,14 +66,23 @@ def envs(G, rk: gkdi.RootKey, ch: gkdi.Chain, pos: t.Tuple[int, int], pubkey: t.
     common = dict(
         version=1, l0=ch.l0, l1=l1, l2=l2, root_key_identifier=rk.rkid, kdf_algorithm="SP800_108_CTR_HMAC",
         kdf_parameters=gkdi.pack_kdf_params(rk.hash_name), secret_algorithm=rk.secret_alg, secret_parameters=rk.params(),
-        private_key_length=rk.priv_len, public_key_length=rk.pub_len, domain_name="d", forest_name="f",
+        private_key_length=rk.priv_len, public_key_length=rk.pub_len, domain_name="emea.corp.test" if (l1 + l2) % 3 else "d", forest_name="f",
     )
     # flag values: bit 0 = "L2 key field holds the group public key"; bit 1 is set by Windows in both forms (its public-key key
     # identifiers carry 3, seed-key envelopes 2) and clear in other captures: both spellings of each form are used, by position
     seed_env = G.GroupKeyEnvelope(flags=2 if (l1 + 2 * l2) % 3 else 0, l1_key=(ch.l1(l1 - 1) if l1 else b"") if l2 != 31 else ch.l1(l1), l2_key=ch.l2(l1, l2), **common)
+    def wire(env):
+        # every second position: the envelope as it comes off the wire (reference encoder -> the library's decoder), names of different lengths
+        if (l1 + l2) % 2 == 0:
+            return env
+        ref = gkdi.pack_envelope(gkdi.Envelope(env.version, env.flags, env.l0, env.l1, env.l2, env.root_key_identifier, env.kdf_algorithm, bytes(env.kdf_parameters), env.secret_algorithm,
+                                              bytes(env.secret_parameters or b""), env.private_key_length, env.public_key_length, env.domain_name, env.forest_name, bytes(env.l1_key), bytes(env.l2_key)))
+        return G.GroupKeyEnvelope.unpack(ref)
+
     if pubkey is None:
-        return seed_env, seed_env
-    return G.GroupKeyEnvelope(flags=3 if (l1 + l2) % 2 else 1, l1_key=b"", l2_key=pubkey, **common), seed_env
+        e_ = wire(seed_env)
+        return e_, e_
+    return wire(G.GroupKeyEnvelope(flags=3 if (l1 + l2) % 2 else 1, l1_key=b"", l2_key=pubkey, **common)), wire(seed_env)
 
 
 def run_case(enc_env, dec_env, rnd: bytes):
